@@ -57,6 +57,7 @@ def run(prog, R, tier="quick", only_rule=None):
     # a blob file is rewritten only if *no* other table - hidden by a parallel compaction or not - points into it
     from rules.props import c08
     c08.c08f(prog, R, rid="C06.o")
+    c06p(prog, R)
     # a reader at a published snapshot keeps finding its version: the version GC bound (shared with C20.d)
     from rules.props import c20
     c20.c20d(prog, R, rid="C06.k")
@@ -335,8 +336,8 @@ def c06e(prog, R, L):
     r.floor(9)
 
 
-def c06f(prog, R, L):
-    r = R.rule("C06.f", "major compaction and drop_range are exclusive; ordinary compaction shares", "L")
+def c06f(prog, R, L, rid="C06.f"):
+    r = R.rule(rid, "major compaction and drop_range are exclusive; ordinary compaction shares", "L")
     for name, mode in ((A.tm(A.TREE, "major_compact"), "write"), (A.tm(A.TREE, "drop_range"), "write"),
                        (A.tm(A.TREE, "compact"), "read")):
         f = prog.need(name)
@@ -424,7 +425,7 @@ def c06g(prog, R, L):
               "table/blob writing runs while the version-history lock is held: readers and writers stall for the whole "
               "flush/merge", f.where(c.bb))
     r.ok("long-io census|%d call site(s) may reach table writing" % (n_sites // 5 * 5), "", nontrivial=False)
-    r.floor(7)
+    r.floor(9)
 
 
 READER_METHODS = ("get", "contains_key", "size_of", "range", "prefix", "iter", "len", "is_empty", "first_key_value",
@@ -635,3 +636,52 @@ def c06n(prog, R, L, rid="C06.n"):
     r.ok("census|nested acquisitions of a held lock class: %d" % len(bad), "%d call sites examined under a held lock" % n, nontrivial=False)
     r.check(not bad, "lock re-entrancy|no call under a held lock may take that lock again", "self-deadlock possible at %d site(s)" % len(bad), "")
     r.floor(1)
+
+
+def c06p(prog, R, rid="C06.p"):
+    """A level above L1 (and L0 always) can hold several overlapping runs.  A strategy that builds a payload from a level
+    therefore walks *all* runs of that level; `first_run()` is only right where the level is known to be one disjoint run -
+    the L1+ branch of the leveled strategy, which asserts it (pick_minimal_compaction).  Taking the first run only merges or
+    moves the newest run past older ones that still hold older versions of the same keys."""
+    r = R.rule(rid, "a compaction payload built from a level considers every run of that level", "D")
+    n = 0
+    for name, f in sorted(prog.fns.items()):
+        if not name.endswith("as compaction::CompactionStrategy>::choose"):
+            continue
+        for i, b in enumerate(f.blocks):
+            for st in b["stmts"]:
+                if not (st["k"] == "assign" and st["rv"]["k"] == "agg" and st["rv"].get("adt") == "compaction::Input"):
+                    continue
+                idx = st["rv"]["fields"].index("table_ids")
+                calls = _chain_calls(prog, f, st["rv"]["ops"][idx])
+                names = {c.sres for c in calls}
+                if not names:
+                    continue
+                n += 1
+                first = any(x.endswith("::first_run") for x in names)
+                tabled = any(x.endswith("leveled::pick_minimal_compaction") for x in names)
+                r.check(not first or tabled, "%s|payload #%d walks all runs of the levels it takes from" % (name, n),
+                        "a compaction payload is built from `first_run()` of a level that may hold several overlapping runs: the "
+                        "newest run is merged / moved past older runs of the same level", f.where(i), str(sorted(short(x) for x in names))[:200])
+    # the overlapping tables of a target level (appended to a payload through `extend`, or tested for a trivial move) are
+    # gathered from every run of that level as well
+    m = 0
+    lv = prog.fn("<compaction::leveled::Strategy as compaction::CompactionStrategy>::choose")
+    if lv is not None:
+        for c in lv.calls:
+            if not c.sres.endswith(("Iterator::collect", "Iterator>::next", "Iterator::next")) or not c.args:
+                continue
+            names = {x.sres for x in _chain_calls(prog, lv, c.args[0])}
+            if not any(x.endswith("Run::get_overlapping") for x in names):
+                continue
+            m += 1
+            first = any(x.endswith("::first_run") for x in names)
+            allruns = any(x.endswith(("GenericLevel::iter", "Level::iter")) for x in names) and any(x.endswith("Iterator::flat_map") for x in names)
+            r.check(allruns and not first, "%s|overlapping tables of the target level #%d come from all of its runs" % (lv.path, m),
+                    "the tables overlapping an L0 compaction are looked up in `first_run()` of the target level only: an older run of that "
+                    "level keeps older versions (and loses the tombstones meant for them)", lv.where(c.bb), str(sorted(short(x) for x in names))[:200])
+        if m < 2:
+            r.anchor_missing("get_overlapping lookups in leveled choose (found %d, confirmed 2)" % m)
+    if n < 7:
+        r.anchor_missing("compaction payloads in strategies (found %d, confirmed 7)" % n)
+    r.floor(9)
